@@ -14,6 +14,7 @@ Cartesian component and paired with the Cartesian direction of the periodic grid
 from __future__ import annotations
 
 import ast
+import os
 import itertools
 import random
 
@@ -337,6 +338,8 @@ def check_normalize(rep: Report, ix):
         for flags in _it.product((False, True), repeat=n_axes):
             for reflect in (False, True):
                 shapes = [(n_axes,), (2, n_axes)] + ([()] if n_axes == 1 else [])
+                if os.environ.get("PDELINT_TIER") == "thorough":
+                    shapes += [(3, 2, n_axes), (1, n_axes)]
                 for shape in shapes:
                     pt = ns.sym_array("p", shape, real=True) if shape else sp.Symbol("p", real=True)
                     orig = pt.copy() if shape else pt
@@ -428,7 +431,7 @@ def check_integrate(rep: Report, ix):
         for idx in _np.ndindex(shape):
             vols[idx] = sp.Mul(*[weight(k, idx[k]) for k in range(n_axes)])
         axes_choices = [None] + list(range(n_axes)) + [c for r in range(1, n_axes + 1) for c in _it.combinations(range(n_axes), r)]
-        for rank in (0, 1, "number"):
+        for rank in (0, 1, "number") + ((2,) if os.environ.get("PDELINT_TIER") == "thorough" else ()):
             for axes in axes_choices:
                 if rank == "number":
                     data = 1
